@@ -19,6 +19,11 @@ def run_property(pid, tier):
     mods = T1_MODULES.get(pid, [])
     if mods and only != "bounded":
         t1.run_t1(rep, mods, pid=pid, quick=(tier == "quick"))
+    if mods and tier == "thorough" and only != "bounded":
+        # engine self-tests: deliberately broken bodies must fail a named obligation
+        from ..pyvc import selftest
+
+        selftest.run(rep, only_modules=mods)
     try:
         bounded = importlib.import_module(f"vt.props.{pid.lower()}_bounded")
     except ModuleNotFoundError as e:
